@@ -117,7 +117,7 @@ EqEquivalence == Pair =>
 
 \* labels (pointer identity / sharing), spare capacity, insertion order: irrelevant
 EqInsensitive == Pair =>
-  /\ (P[j].kind \in {"same", "twin"} /\ P[j].of = i) => E(i, j)
+  /\ (P[j].kind \in {"same", "twin", "ign"} /\ P[j].of = i) => E(i, j)
   /\ E(i, j) = Eq(NoEnv, T, X(i), Relabel(X(j), "z:"))
   /\ (P[j].kind = "same" /\ P[j].of = i /\ P[j].tag # "fzn") => Identical(NoEnv, T, X(i), X(j))
 
